@@ -16,6 +16,17 @@ CHECKS = {
               'strong on the solver core, as wide on shipped forms as the scenario generator reaches (class distribution in evidence).'),
         note='Trusted: hx/progs.py model, hx/closure.py, the scenario generator. Aborts with NotImplementedError/InvalidInput/bad-reference errors are allowed outcomes.',
         design='3/C01'),
+    'C02': dict(
+        category='exploration',
+        technique='instruction grammar over the official line text (XFA accessibility text of the mapped widget, NC page text through ToUnicode, cited transcription) evaluated against (a) generated operands of closed lines, (b) sentinel values for carried lines, (c) solved real returns (differential oracle independent of the Python form definitions)',
+        text=('About 90 numeric lines per year on the IRS templates plus ~35 transcribed worksheet/NC lines are parsed into expressions '
+              '(add/combine with ranges, subtract with floor, conditional subtract, multiply by rate/amount/line, smaller/larger, copy, divide, '
+              'carry-out). Isolated: the real definition of each closed line is evaluated on generated operand tuples incl. boundary and '
+              'negative-floor cases; carried lines are probed with per-line sentinel values so that carrying the wrong source line shows; '
+              'end-to-end: every parsed line and every carry of every solved generated return is recomputed from the same solution. '
+              'Unparsed sentences and non-closed lines are listed in evidence, never guessed.'),
+        note='Trusted: hx/instr.py grammar, hx/pdf.py text extraction, data/instructions_transcribed.json (sources cited). Lines whose text is "see instructions" or an input echo are out of reach.',
+        design='3/C02'),
     'C03': dict(
         category='exploration',
         technique='re-evaluation oracle: every stored line of every generated solve (programs and real returns, drawn schedules) is recomputed from its own definition on the final stores; solution text round-trips through Field.from_string',
